@@ -700,6 +700,11 @@ func (messagesMapper) Save(msg *types.Message, attachmentURLs []string, readBySe
 		for _, url := range attachmentURLs {
 			// Convert attachment URLs to file IDs.
 			if fid := mediaHandler.GetIdFromUrl(url); !fid.IsZero() {
+				// Skip IDs which name no upload: the links are created all or none, one
+				// unknown ID would otherwise fail the already saved message.
+				if fd, err := adp.FileGet(fid.String()); fd == nil && err == nil {
+					continue
+				}
 				attachments = append(attachments, fid.String())
 			}
 		}
